@@ -1368,6 +1368,11 @@ func (c *Ctx) mapRead(s *State, heap map[string]string, m string, mt *types.Map,
 	}
 	ph := c.mapHeapTerm(s, heap, base+"#present", fmt.Sprintf("(Array Ref (Array %s Bool))", ks))
 	present := fmt.Sprintf("(select (select %s %s) %s)", ph, m, kt)
+	// representation fact of Go maps: a present key means a non-empty map; nil maps are empty
+	chh := c.mapHeapTerm(s, heap, base+"#card", "(Array Ref Int)")
+	if fact := fmt.Sprintf("(and (=> %s (>= (select %s %s) 1)) (=> (= %s rnil) (not %s)))", present, chh, m, m, present); !strings.Contains(fact, "!q") {
+		c.assume(s, fact)
+	}
 	val := c.mapValAt(s, heap, base, ks, m, kt, mt.Elem(), "")
 	return val, present
 }
@@ -1456,6 +1461,9 @@ func (c *Ctx) mapCard(s *State, heap map[string]string, m string, mt *types.Map)
 	base := "M:" + typeName(mt)
 	h := c.mapHeapTerm(s, heap, base+"#card", "(Array Ref Int)")
 	t := fmt.Sprintf("(select %s %s)", h, m)
+	if !strings.Contains(t, "!q") {
+		c.assume(s, fmt.Sprintf("(and (>= %s 0) (=> (= %s rnil) (= %s 0)))", t, m, t))
+	}
 	return c.intFromMath(t)
 }
 
